@@ -183,6 +183,17 @@ fn check_one_inner(cx: &Ctx, bi: usize, arg: &str, acc: &mut Acc, order: u64, wi
                 if o == *p {
                     viol(acc, "equality-across-instances", format!("paths {:?} of two different filesystem instances compare equal", s), &bstr, arg, order);
                 }
+                // the same for paths DERIVED from them (root(), parent()): still two different filesystem instances
+                if o.root() == p.root() {
+                    viol(acc, "equality-across-instances", format!("root() of {:?} on two different filesystem instances compare equal", s), &bstr, arg, order);
+                }
+                if o.parent() == p.parent() {
+                    viol(acc, "equality-across-instances", format!("parent() of {:?} on two different filesystem instances compare equal", s), &bstr, arg, order);
+                }
+            }
+            // ... and equal on one instance, however the path was obtained
+            if p.root() != *cx.root || !p.root().is_root() || p.root().as_str() != "" {
+                viol(acc, "equality", format!("root() of {:?} is {:?}, is_root()={}, equal to the filesystem's root: {}", s, p.root().as_str(), p.root().is_root(), p.root() == *cx.root), &bstr, arg, order);
             }
             // the parent of join(p, name) is p, for a single ordinary name
             if !arg.contains('/') && arg != "." && arg != ".." && !arg.is_empty() && par.as_str() != bstr {
